@@ -63,6 +63,12 @@ def _construct_spline(self, result):
     the soil profile of get_Sy_soil plus the microtopography term normcdf(level in m, sd); the
     returned spline passes through the table and is constant beyond it."""
     requires(self.b != 0 and self.psi_s != 0)
+    ghost(before="assert np.allclose(", do=lambda: cut(forall(0, 201, lambda i:
+          self.zeta_knots_mm[0] <= self.zeta_knots_mm[i] and self.zeta_knots_mm[i] <= self.zeta_knots_mm[200])))
+    ghost(before="assert np.allclose(", do=lambda: cut(len(self.sy_knots) == 201 and len(self.zeta_knots_mm) == 201
+          and lo_knot(spline) == self.zeta_knots_mm[0] and hi_knot(spline) == self.zeta_knots_mm[200]))
+    ghost(before="assert np.allclose(", do=lambda: cut(forall(0, 201, lambda i:
+          S_of(spline, clamp(spline, self.zeta_knots_mm[i])) == self.sy_knots[i])))
     ensures(len(self.zeta_knots_mm) == 201 and len(self.sy_knots) == 201)
     ensures(forall(0, 201, lambda i: self.zeta_knots_mm[i] == 1000 * (0.5 * ((-0.99 + i * 0.01) + (-1 + i * 0.01)))))
     ensures(forall(0, 201, lambda i: self.sy_knots[i]
